@@ -49,6 +49,9 @@ type Project struct {
 	// project registers its one set of user-type objects with every schema in it.
 	// 0: own fresh objects. Not part of the input's identity (Hash).
 	ShareWith int `json:"share_with,omitempty"`
+	// Opt: constructor options. jschema: "optkeys" (keys optional by default);
+	// rschema: "seed=<n>" (regex.WithGeneratorSeed). Part of the input's identity.
+	Opt string `json:"opt,omitempty"`
 }
 
 type TypeSpec struct {
@@ -70,15 +73,16 @@ type projectJ struct {
 	Rules []RuleSpec `json:"rules,omitempty"`
 	Torn  string     `json:"torn,omitempty"`
 	ShareWith int    `json:"share_with,omitempty"`
+	Opt   string     `json:"opt,omitempty"`
 }
 
 func (p Project) MarshalJSON() ([]byte, error) {
-	return json.Marshal(projectJ{p.Kind, p.Name, Txt(p.Text), p.Types, p.Rules, p.Torn, p.ShareWith})
+	return json.Marshal(projectJ{p.Kind, p.Name, Txt(p.Text), p.Types, p.Rules, p.Torn, p.ShareWith, p.Opt})
 }
 func (p *Project) UnmarshalJSON(b []byte) error {
 	var j projectJ
 	err := json.Unmarshal(b, &j)
-	*p = Project{j.Kind, j.Name, string(j.Text), j.Types, j.Rules, j.Torn, j.ShareWith}
+	*p = Project{j.Kind, j.Name, string(j.Text), j.Types, j.Rules, j.Torn, j.ShareWith, j.Opt}
 	return err
 }
 
@@ -116,7 +120,8 @@ func (p *Project) Hash() string {
 		T Txt
 		Y []TypeSpec
 		R []RuleSpec
-	}{p.Kind, p.Name, Txt(p.Text), p.Types, p.Rules})
+		O string `json:",omitempty"`
+	}{p.Kind, p.Name, Txt(p.Text), p.Types, p.Rules, p.Opt})
 	h := sha1.Sum(b)
 	return hex.EncodeToString(h[:])
 }
